@@ -52,6 +52,12 @@ MUTANTS = {
     "c15-folder-not-pinned": ("C15", "EasyFEA/Simulations/_simu.py",
         "            self.__list_results.append(path)\n",
         "            self.__list_results.append(Folder.os.path.relpath(path, self.folder))\n"),
+    "c15-update-mesh-no-need-update": ("C15", "EasyFEA/Simulations/_simu.py",
+        "        clear_cached_computed_values(self)\n\n        self.Need_Update()  # need to reconstruct matrices\n",
+        "        clear_cached_computed_values(self)\n"),
+    "c15-loaded-mesh-not-adapted": ("C15", "EasyFEA/Simulations/_simu.py",
+        "            mesh = self._Adapt_loaded_mesh(Load_Mesh(Folder.Join(folder, mesh)))\n",
+        "            mesh = Load_Mesh(Folder.Join(folder, mesh))\n"),
     # ---- C03
     "c03-csr-key-without-ndof": ("C03", "EasyFEA/Simulations/_simu.py",
         "        inv, indices, indptr, nnz = self.__Get_csr_map(dof_n, isMatrix, Ndof, groups)\n",
